@@ -122,6 +122,10 @@ func (dt *DateTime) UnmarshalJSON(data []byte) error {
 	if err != nil {
 		return err
 	}
+	if dtn.Time.Nanosecond != 0 {
+		// the published format has no fractional seconds
+		return errors.New("invalid date time, fractional seconds are not supported")
+	}
 	*dt = DateTime{dtn}
 	return nil
 }
